@@ -452,6 +452,10 @@ func (p *Policy) sanitize(r io.Reader, w io.Writer) error {
 			}
 
 			if len(token.Attr) == 0 && !p.allowNoAttrs(token.Data) {
+				if voidElement(token.Data) {
+					// <img/></img>: as for a start tag
+					droppedVoidElement = token.Data
+				}
 				if p.addSpaces {
 					if _, err := buff.WriteString(" "); err != nil {
 						return err
